@@ -248,6 +248,6 @@ def run(tier, seed, rep):
 def model(tier):
     """(A) for C19 is small: the outcome table and reference rules are total over the configurations"""
     cfg = core.workdir("mc_" + PROP) + "/MC_Paths.cfg"
-    core.write_cfg(cfg, invariants=["OutcomeTableTotal", "StdNeverAllowed", "ConfiguredPathRespected"])
+    core.write_cfg(cfg, invariants=["OutcomeTableTotal", "StdNeverAllowed", "ConfiguredPathRespected", "StdMacrosRejected"])
     res = core.tlc_mc("MC_Paths.tla", cfg, "mc_" + PROP, workers=2, timeout=600, xmx="2g")
     return ("MC_Paths", res, {})
